@@ -328,6 +328,7 @@ def run(ctx):
     ctx.rule("R-16.2", "the regenerated frame goes to a fresh file under exe_dir; system.config re-pointed; caller passes a copy", floor=10)
     ctx.rule("R-16.3", "momentum reset under zero_momentum between draw and write (external gmx refuses False)", floor=5)
     ctx.rule("R-16.4", "reported kinetic energy computed from the velocities that are written; system.ekin set to it", floor=5)
+    ctx.rule("R-16.7", "the frame index of the configuration that is dumped before velocity regeneration is tested with `is None`, never by truthiness (index 0 is a frame)", floor=5)
     ctx.rule("R-16.6", "positional role agreement in velocity regeneration: (dek, kin_new), (vel, sigma_v), (xyz, vel, box, names) and writer arguments sit where the callee returns / expects them", floor=15)
     impls = implementations(ctx.tree)
     armed = 0
@@ -349,13 +350,16 @@ def run(ctx):
     if armed < 5:
         raise AnalysisError(f"C16: only {armed} modify_velocities implementations found (expected 5)")
     ctx.attempt(r16_caller, ctx)
-    from .shared import role_agreement
+    from .shared import role_agreement, frame_index_truthiness
+    ctx.attempt(frame_index_truthiness, ctx, "R-16.7", [GROMACS, CP2K, LAMMPS, TURTLE, ASE, ENGBASE], " (the whole multi-frame file is dumped instead of frame 0: velocities are regenerated for another frame)")
     P16 = ("modify_velocities", "draw_maxwellian_velocities", "_prepare_shooting_point", "kinetic_energy", "reset_momentum", "prepare_shooting_point")
     ctx.attempt(role_agreement, ctx, "R-16.6", [GROMACS, CP2K, LAMMPS, TURTLE, ASE, ENGBASE, TIS], lambda q, f: f.name in P16, " (velocity regeneration would write / report the wrong quantity)")
     ctx.note("R-16.5 (draws use the job stream) is decided under C07 R-7.4 for the same call sites")
 
 
 VARIANTS = [
+    B("c16-dump-config-idx-truthiness", ENGBASE, "        if idx is None:\n            if pos_file != out_file:\n                self._copyfile(pos_file, out_file)\n        else:\n            logger.debug(\"Config: %s\", (config,))\n            self._extract_frame(pos_file, idx, out_file)\n", "        if idx:\n            logger.debug(\"Config: %s\", (config,))\n            self._extract_frame(pos_file, idx, out_file)\n        elif pos_file != out_file:\n            self._copyfile(pos_file, out_file)\n", "R-16.7", control=True, why="seeded C16_c"),
+    K("c16-keep-dump-config-reordered", ENGBASE, "        if idx is None:\n            if pos_file != out_file:\n                self._copyfile(pos_file, out_file)\n        else:\n            logger.debug(\"Config: %s\", (config,))\n            self._extract_frame(pos_file, idx, out_file)\n", "        if idx is not None:\n            logger.debug(\"Config: %s\", (config,))\n            self._extract_frame(pos_file, idx, out_file)\n        elif pos_file != out_file:\n            self._copyfile(pos_file, out_file)\n"),
     B("c16-lammps-writer-args-swapped", LAMMPS, "        write_lammpstrj(conf_out, id_type, xyz, vel, box)", "        write_lammpstrj(conf_out, id_type, vel, xyz, box)", "R-16.6", control=True),
     B("c16-tis-dek-kin-swapped", TIS, "    dek, _ = engine.modify_velocities(shpt_copy, ens_set[\"tis_set\"])", "    _, dek = engine.modify_velocities(shpt_copy, ens_set[\"tis_set\"])", "R-16.6"),
     B("c16-cp2k-kinetic-args-swapped", CP2K, "        kin_new = kinetic_energy(vel, mass)[0]", "        kin_new = kinetic_energy(mass, vel)[0]", "R-16.6"),
